@@ -1306,6 +1306,13 @@ def _m_sum(fr, x, dim=None, axis=None, keepdim=False, keepdims=False, **kw):
     return Tn.fresh(shape, content, kind, lib=x.lib)
 
 
+@lib('numpy.nansum', 'torch.nansum')
+def _nansum(fr, x, *a, **kw):
+    # NaN is outside the real-arithmetic model of floats (stated assumption): nansum is sum on it
+    fr.ctx.trusted.add('assumed: numpy.nansum == sum on tracks without NaN (floats are reals here)')
+    return _sum(fr, x, *a, **kw)
+
+
 @lib('torch.sum', 'numpy.sum')
 def _sum(fr, x, *a, **kw):
     return _m_sum(fr, as_tn(fr, x), *a, **kw)
